@@ -26,6 +26,9 @@ def group_runs(g, tier):
             W('mem', 'random', names='prefix', walks=20 if q else 500, length=40),
             W('mem', 'random', names='rnd', walks=10 if q else 300, length=40), W('mem', 'random', names='rnd', lts='deep', walks=8 if q else 300, length=40),
             W('phys', 'random', names='rnd', walks=6 if q else 200, length=40),
+            # copies followed by writes to the copy or the original (a native copy that aliases instead of copying)
+            W('phys', 'random', walks=12 if q else 300, length=40, ops='copy_file,append_file,create_file,move_file,remove_file,create_dir'),
+            W('phys', 'random', walks=6 if q else 150, length=40, b=4096, names='dotted', ops='copy_file,copy_dir,append_file,create_file,create_dir'),
             # the transfers (native fast paths of PhysicalFS: copy, rename) with every kind of source and destination
             W('phys', 'edges', frac=0.04 if q else 1.0, ops='copy_file,move_file,copy_dir,move_dir'), W('phys', 'edges', lts='deep', frac=0.04 if q else 1.0, names='prefix2', ops='copy_file,move_file,copy_dir,move_dir'),
             W('mem', 'edges', lts='chain', frac=0.25 if q else 1.0), W('phys', 'edges', lts='chain', frac=0.1 if q else 1.0, names='dotted'),
@@ -59,6 +62,7 @@ def group_runs(g, tier):
             W('alt(zr/zs,phys)', 'random', names='dotted', walks=8 if q else 300, length=40),
             W('alt(/,mem)', 'random', walks=10 if q else 300, length=40),
             W('alt(zr/zs/zt,mem)', 'random', names='prefix', walks=10 if q else 300, length=40),
+            W('alt(zr,phys)', 'random', walks=8 if q else 200, length=40, ops='copy_file,append_file,create_file,move_file,remove_file,create_dir'),
             W('alt(zr,phys)', 'edges', frac=0.03 if q else 1.0, names='prefix', ops='copy_file,move_file,copy_dir,move_dir'), W('alt(zr,phys)', 'edges', frac=0.02 if q else 1.0, names='prefix2', ops='copy_file,move_file,copy_dir,move_dir'),
             W('alt(zr/zs,mem)', 'edges', lts='chain', frac=0.15 if q else 1.0), W('alt(zr,phys)', 'random', lts='chain', walks=5 if q else 200, length=40),
             W('alt(zr,mem)', 'random', lts='wide', walks=6 if q else 300, length=40),
